@@ -43,6 +43,9 @@ type Prog struct {
 	inPhi         map[*ssa.Phi]bool
 	inLinPhi      map[*ssa.Phi]bool
 	localFlag     map[*ssa.Alloc]bool
+	linAt         ssa.Instruction
+	versionDefs   map[versionKey][]ssa.Instruction
+	writesCache   map[writesKey]bool
 	linFrame      *Frame
 	linArgs       map[*ssa.Parameter]Lin
 }
